@@ -17,8 +17,8 @@ if [ "$PATCH" != "/dev/null" ]; then
 fi
 FEATS=$(echo "$@" | tr 'A-Z' 'a-z' | tr ' ' ',')
 FEATARGS="--no-default-features --features $FEATS"
-# C10 borrows the scenarios of every other check: build it with the default feature set
-case " $(echo "$@" | tr a-z A-Z) " in *" C10 "*) FEATARGS="" ;; esac
+# C10 (and the emitted part of C08, which wraps it) borrows the scenarios of every other check: default feature set
+case " $(echo "$@" | tr a-z A-Z) " in *" C10 "*|*" C08 "*) FEATARGS="" ;; esac
 (cd $M/harness && CARGO_NET_OFFLINE=true cargo build --release $FEATARGS --target-dir $M/target >$M/build.log 2>&1) || { echo "$(basename $PATCH) BUILD-FAILED"; tail -20 $M/build.log; exit 2; }
 for id in "$@"; do
   ID=$(echo $id | tr a-z A-Z)
